@@ -17,10 +17,10 @@ import (
 
 // Edge is one labelled transition printed by MC_Apq!EmitEdge.
 type Edge struct {
-	S AState `json:"s"`
-	A AReq   `json:"a"`
-	O AOut   `json:"o"`
-	T AState `json:"t"`
+	S        AState `json:"s"`
+	A        AReq   `json:"a"`
+	O        AOut   `json:"o"`
+	T        AState `json:"t"`
 	from, to string
 	covered  bool
 }
